@@ -81,6 +81,11 @@ def run_case(case):
     r.nontrivial = J >= 2 or any(n % 2 for n in size) or L >= 6
     fwd, inv = _modules(case)
     tdt = dwtu.tdt(case['dtype'])
+    if case['k'] % 3 == 0:
+        r.label('after_other_precision_call')
+        dwtu.other_precision_call(fwd, [1, 1] + size, tdt)
+        dwtu.other_precision_call(inv, None, tdt, lambda dt: (
+            torch.ones([1, 1] + [4] * dim, dtype=dt), [torch.ones([1, 1] + ([] if dim == 1 else [3]) + [4] * dim, dtype=dt)]))
 
     def mismatch(what, msg):
         if in_d1a and core.kf_open('KF-D1-analysis', ID):
